@@ -44,6 +44,7 @@ type Engine struct {
 	Thorough         bool
 	deadline         time.Time
 	OpaqueStrings    map[string]string // fn name -> placeholder returned when called with symbolic arguments
+	OpaqueAlways     map[string]string // fn name -> placeholder returned always (error message rendering)
 	knownSeen        map[string]int
 	SessionPaths     int               // recycle solver/context after this many paths
 	Substitute       map[string]string // fn name -> replacement fn name (spec substitution, layering)
@@ -323,6 +324,9 @@ func callSSA(i *interpreter, caller *frame, callpos token.Pos, fn *ssa.Function,
 			if sub := i.eng.substFns[fn]; sub != nil {
 				return callSSA(i, caller, callpos, sub, args, nil)
 			}
+			if ph, ok := i.eng.OpaqueAlways[name]; ok {
+				return ph // rendering of an error message: placeholder text (messages are not part of any claim)
+			}
 			if ph, ok := i.eng.OpaqueStrings[name]; ok && anySym(args) {
 				return ph // formatting of a symbolic value for a message: placeholder text
 			}
@@ -547,6 +551,12 @@ type Summary struct {
 // Explore runs all paths of a harness.
 func (e *Engine) Explore(fn *ssa.Function, workers []*Worker, opts ExploreOpts) *Summary {
 	e.deadline = opts.Deadline
+	for _, w := range workers {
+		// input names are scoped to a harness: start from a fresh term context and solver
+		if w.sess != nil {
+			w.sess.paths = 1 << 30
+		}
+	}
 	sum := &Summary{Harness: fn.Name(), Outcomes: map[string]int{}, AssertsOK: map[string]int{}, AssertsSeen: map[string]int{},
 		Unsupported: map[string]int{}, InternalAsm: map[string]int{}, PanicMsgs: map[string]int{}}
 	t0 := time.Now()
